@@ -153,6 +153,7 @@ type ForeignOpts struct {
 }
 
 type fw struct {
+	corpTbl string
 	r       *rng.R
 	f       *Foreign
 	p       string // element prefix for the w namespace ("" = default namespace)
@@ -367,7 +368,7 @@ func (w *fw) table(depth int) string {
 	rows, cols := w.r.Range(1, 3), w.r.Range(1, 3)
 	tblStyle := ""
 	if !w.opts.Simple && w.r.Chance(1, 3) {
-		tblStyle = "<" + w.el("tblStyle") + w.at("val", []string{"TableGrid", "CorpTbl"}[w.r.Intn(2)]) + "/>"
+		tblStyle = "<" + w.el("tblStyle") + w.at("val", []string{"TableGrid", w.corpTbl}[w.r.Intn(2)]) + "/>"
 		w.feature("table-with-own-style")
 	}
 	b.WriteString("<" + w.el("tbl") + "><" + w.el("tblPr") + ">" + tblStyle + "<" + w.el("tblW") + w.at("w", "5000") + w.at("type", "dxa") + "/></" + w.el("tblPr") + ">")
@@ -553,12 +554,17 @@ func MakeForeign(r *rng.R, opts ForeignOpts) *Foreign {
 		w.feature("rId1-is-not-styles")
 	}
 	f.HeadingStyle = []string{"Heading1", "berschrift1", "Titre1"}[r.Intn(3)]
-	f.StyleIDs = []string{"Normal", f.HeadingStyle, "MyStyle", "TableGrid", "a0", "CorpTbl"}
+	// a table style of the producer's own, unknown to any other application; style ids are free text
+	w.corpTbl = []string{"CorpTbl", "CorpTbl", "Corp Tbl", "Ledger(2024", "T*", "表样式", "a.b[1]", "x\\y", "100%s", "$1"}[r.Intn(10)]
+	if opts.Simple {
+		w.corpTbl = "CorpTbl"
+	}
+	f.StyleIDs = []string{"Normal", f.HeadingStyle, "MyStyle", "TableGrid", "a0", w.corpTbl}
 	var sb strings.Builder
 	sb.WriteString(hdr + `<w:styles xmlns:w="` + nsW + `"><w:docDefaults><w:rPrDefault><w:rPr><w:sz w:val="21"/></w:rPr></w:rPrDefault></w:docDefaults>`)
 	for i, id := range f.StyleIDs {
 		typ := "paragraph"
-		if id == "TableGrid" || id == "CorpTbl" {
+		if id == "TableGrid" || id == w.corpTbl {
 			typ = "table" // CorpTbl: a table style of the producer's own, unknown to any other application
 		}
 		if id == "a0" {
@@ -892,7 +898,12 @@ func MakeForeign(r *rng.R, opts ForeignOpts) *Foreign {
 			}
 		}
 	}
-	sect := "<" + w.el("sectPr") + ">" + sectRefs + "<" + w.el("pgSz") + w.at("w", "11906") + w.at("h", "16838") + "/><" + w.el("pgMar") + w.at("top", "1440") + w.at("right", "1800") + w.at("bottom", "1440") + w.at("left", "1800") + w.at("header", "851") + w.at("footer", "992") + w.at("gutter", "0") + "/></" + w.el("sectPr") + ">"
+	docGrid := ""
+	if !opts.Simple && r.Bool() {
+		docGrid = "<" + w.el("cols") + w.at("space", "425") + "/><" + w.el("docGrid") + w.at("type", "lines") + w.at("linePitch", []string{"312", "360", "0", "1"}[r.Intn(4)]) + "/>"
+		w.feature("docGrid")
+	}
+	sect := "<" + w.el("sectPr") + ">" + sectRefs + "<" + w.el("pgSz") + w.at("w", "11906") + w.at("h", "16838") + "/><" + w.el("pgMar") + w.at("top", "1440") + w.at("right", "1800") + w.at("bottom", "1440") + w.at("left", "1800") + w.at("header", "851") + w.at("footer", "992") + w.at("gutter", "0") + "/>" + docGrid + "</" + w.el("sectPr") + ">"
 	switch {
 	case r.Chance(1, 4) && !opts.Simple:
 		w.feature("sectPr-in-last-paragraph")
